@@ -121,12 +121,6 @@ func nilTest(cond ssa.Value, e ssa.Value, pol bool) (bool, bool) {
 	return false, false
 }
 
-// nilFact: the literal asserting e == nil.
-func (a *FnA) nilFact(e ssa.Value) Lit {
-	d := a.Desc(e)
-	return Lit{"eq(" + min2(d, "nil") + "," + max2(d, "nil") + ")", true}
-}
-
 // derivesFrom: does error value r carry e (itself, wrapped by fmt.Errorf / errors.Join, or via phi)?
 func derivesFrom(r, e ssa.Value, depth int) bool {
 	if r == e {
@@ -390,360 +384,4 @@ func (c *Ctx) writerParam(f *ssa.Function) *ssa.Parameter {
 	return nil
 }
 
-// dataLeaves expands a written value through phis into its leaf producers.
-func dataLeaves(v ssa.Value, seen map[ssa.Value]bool) []ssa.Value {
-	v = stripConv(v)
-	if seen[v] {
-		return nil
-	}
-	seen[v] = true
-	if p, ok := v.(*ssa.Phi); ok {
-		var out []ssa.Value
-		for _, e := range p.Edges {
-			out = append(out, dataLeaves(e, seen)...)
-		}
-		return out
-	}
-	return []ssa.Value{v}
-}
-
-// bufferBytesOf: v is buf.Bytes() / buf.String() of a buffer allocated in this function.
-func bufferBytesOf(v ssa.Value) *ssa.Alloc {
-	call, ok := stripConv(v).(*ssa.Call)
-	if !ok || call.Call.StaticCallee() == nil {
-		return nil
-	}
-	switch call.Call.StaticCallee().String() {
-	case "(*bytes.Buffer).Bytes", "(*bytes.Buffer).String", "(*strings.Builder).String":
-		if al, ok := call.Call.Args[0].(*ssa.Alloc); ok {
-			return al
-		}
-	}
-	return nil
-}
-
-func formatSourceResult(v ssa.Value) *ssa.Call {
-	ex, ok := stripConv(v).(*ssa.Extract)
-	if !ok || ex.Index != 0 {
-		return nil
-	}
-	call, ok := ex.Tuple.(*ssa.Call)
-	if !ok || call.Call.StaticCallee() == nil || call.Call.StaticCallee().String() != "go/format.Source" {
-		return nil
-	}
-	return call
-}
-
-func ruleAtomicWrite(c *Ctx) []Obligation {
-	o := c.newObs("P-ATOMIC-WRITE")
-	entries := c.writerEntryPoints()
-	isEntry := map[*ssa.Function]bool{}
-	for _, e := range entries {
-		isEntry[e] = true
-	}
-	if len(entries) < 5 {
-		o.undecided("jen", "writer entry points", token.NoPos, "expected the 5 exported methods with an io.Writer parameter, found %d", len(entries))
-	}
-	for _, f := range entries {
-		a := c.FA(f)
-		w := c.writerParam(f)
-		fn := fname(f)
-		nsinks := 0
-		for _, r := range nonDebugRefs(w) {
-			ci, isCall := r.(ssa.CallInstruction)
-			if !isCall {
-				o.add(Violated, fn, fmt.Sprintf("caller's writer used by %T", r), r.Pos(), true, "the writer may only be written at the very end or handed to a sibling entry point")
-				continue
-			}
-			if s := sinkOf(ci); s != nil && stripConv(s.Writer) == w {
-				nsinks++
-				construct := fmt.Sprintf("write to the caller's writer #%d", nsinks)
-				// (a) not in a cycle
-				o.req(!inCycle(ci.Block()), fn, construct+" is not in a loop", ci.Pos(), "the output must be delivered by a single write")
-				// (b) unreachable from every error edge
-				bad := ""
-				for _, cj := range a.calls() {
-					if cj == ci {
-						continue
-					}
-					e, has := errValue(cj)
-					if !has || e == nil {
-						continue
-					}
-					errSucc, _ := a.errEdges(e)
-					for _, s := range errSucc {
-						if s == ci.Block() || reachableFrom(s, nil)[ci.Block()] {
-							bad = fmt.Sprintf("reachable from the failure edge of %s at %s", calleeName(cj.Common()), c.pos(cj.Pos()))
-						}
-					}
-				}
-				o.req(bad == "", fn, construct+" is unreachable from every failure edge", ci.Pos(), "%s", bad)
-				// (c) provenance of the data
-				okData := true
-				var leaves []string
-				for _, d := range s.Data {
-					for _, l := range dataLeaves(d, map[ssa.Value]bool{}) {
-						leaves = append(leaves, a.Desc(l))
-						if formatSourceResult(l) == nil && bufferBytesOf(l) == nil {
-							okData = false
-						}
-					}
-				}
-				if s.Kind != "write" {
-					okData = false
-				}
-				o.req(okData, fn, construct+" delivers the formatter's result or the private buffer, unmodified", ci.Pos(), "data: %s (kind %s)", strings.Join(leaves, " | "), s.Kind)
-				continue
-			}
-			// hand-off to a sibling entry point
-			sc := ci.Common().StaticCallee()
-			if sc != nil && isEntry[sc] && !ci.Common().IsInvoke() {
-				idx := -1
-				for i, ar := range ci.Common().Args {
-					if ar == w {
-						idx = i
-					}
-				}
-				okPos := idx >= 0 && idx < len(sc.Params) && isWriterType(sc.Params[idx].Type())
-				_, isCall := ci.(*ssa.Call)
-				o.req(okPos && isCall && !inCycle(ci.Block()), fn, "writer handed to "+fname(sc), ci.Pos(), "hand-off to a sibling entry point, once")
-				nsinks++
-				continue
-			}
-			o.add(Violated, fn, "caller's writer passed to "+calleeName(ci.Common()), ci.Pos(), true, "the caller's writer must not be given to the internal renderer or any other routine: a later failure would leave partial output behind")
-		}
-		if nsinks == 0 {
-			o.add(Violated, fn, "writes its output", f.Pos(), true, "no write to the caller's writer and no hand-off found: the rendered output is never delivered")
-		}
-	}
-	return o.list
-}
-
-func ruleFormatGate(c *Ctx) []Obligation {
-	o := c.newObs("P-FORMAT-GATE")
-	for _, f := range c.writerEntryPoints() {
-		a := c.FA(f)
-		w := c.writerParam(f)
-		fn := fname(f)
-		var sinks []*Sink
-		for _, s := range a.Sinks() {
-			if stripConv(s.Writer) == w {
-				sinks = append(sinks, s)
-			}
-		}
-		if len(sinks) == 0 {
-			continue // pure hand-off (Render -> RenderWithFile); checked by P-ATOMIC-WRITE / P-FRAGMENT
-		}
-		var fcalls []*ssa.Call
-		for _, ci := range a.calls() {
-			if sc := ci.Common().StaticCallee(); sc != nil && sc.String() == "go/format.Source" {
-				if call, ok := ci.(*ssa.Call); ok {
-					fcalls = append(fcalls, call)
-				}
-			}
-		}
-		if len(fcalls) != 1 {
-			o.add(Violated, fn, "exactly one call of format.Source", f.Pos(), true, "found %d calls; output must be gofmt of the raw rendering, applied once", len(fcalls))
-			continue
-		}
-		fc := fcalls[0]
-		o.req(!inCycle(fc.Block()), fn, "format.Source is not in a loop", fc.Pos(), "formatted once")
-		ferr, _ := errValue(fc)
-		if ferr == nil {
-			o.add(Violated, fn, "format.Source error is read", fc.Pos(), true, "the formatter's error is dropped")
-			continue
-		}
-		succ := a.nilFact(ferr)
-		excuses := []Lit{succ}
-		// the NoFormat bypass exists only in methods of File
-		noFormat := ""
-		isFile := f.Signature.Recv() != nil && types.TypeString(f.Signature.Recv().Type(), shortQual) == "*jen.File"
-		if isFile {
-			noFormat = "recv.NoFormat"
-			excuses = append(excuses, Lit{noFormat, true})
-		}
-		for i, s := range sinks {
-			construct := fmt.Sprintf("write #%d requires formatter success", i+1)
-			if isFile {
-				construct += " or NoFormat"
-			}
-			path := a.FindPath(f.Blocks[0], s.Call.Block(), nil, a.excuseBy(excuses))
-			o.req(path == nil, fn, construct, s.Call.Pos(), "path reaching the caller's writer without passing format.Source's success edge%s: %s", map[bool]string{true: " or the NoFormat edge", false: ""}[isFile], pathString(path))
-			// each data leaf is consistent with the edge it arrives on
-			for _, d := range s.Data {
-				okLeaves, detail := a.gateLeaves(stripConv(d), fc, succ, noFormat)
-				o.req(okLeaves, fn, fmt.Sprintf("write #%d: formatted bytes on the formatting path, raw buffer only on the NoFormat path", i+1), s.Call.Pos(), "%s", detail)
-			}
-		}
-		// the formatter's input is the private buffer (not an already formatted result)
-		in := stripConv(fc.Call.Args[0])
-		buf := bufferBytesOf(in)
-		o.req(buf != nil, fn, "format.Source is applied to the private buffer", fc.Pos(), "argument %s", a.Desc(in))
-		if isFile && buf != nil {
-			// raw path writes the same buffer
-			same := true
-			n := 0
-			for _, s := range sinks {
-				for _, d := range s.Data {
-					for _, l := range dataLeaves(d, map[ssa.Value]bool{}) {
-						if b := bufferBytesOf(l); b != nil {
-							n++
-							if b != buf {
-								same = false
-							}
-						}
-					}
-				}
-			}
-			o.req(same && n > 0, fn, "NoFormat writes the same buffer that the formatter would read", fc.Pos(), "the bypass must be the only difference between the two modes (raw leaves: %d)", n)
-		}
-	}
-	return o.list
-}
-
-// gateLeaves checks the leaves of a written value: a format.Source result must arrive over an edge
-// dominated by the formatter's success, a raw buffer only over an edge with NoFormat=true.
-func (a *FnA) gateLeaves(v ssa.Value, fc *ssa.Call, succ Lit, noFormat string) (bool, string) {
-	var checkF func(leaf ssa.Value, facts Facts) (bool, string)
-	check := func(leaf ssa.Value, at *ssa.BasicBlock) (bool, string) {
-		return checkF(leaf, a.FactsAt(at))
-	}
-	checkF = func(leaf ssa.Value, facts Facts) (bool, string) {
-		if formatSourceResult(leaf) == fc {
-			if facts.Has(succ.Atom, true) {
-				return true, ""
-			}
-			return false, fmt.Sprintf("formatter result used where its success is not established (facts %s)", facts)
-		}
-		if bufferBytesOf(leaf) != nil {
-			if noFormat != "" && facts.Has(noFormat, true) {
-				return true, ""
-			}
-			return false, fmt.Sprintf("raw buffer written where NoFormat is not established (facts %s)", facts)
-		}
-		return false, "data " + a.Desc(leaf) + " is neither the formatter's result nor the private buffer"
-	}
-	if p, ok := v.(*ssa.Phi); ok {
-		for i, e := range p.Edges {
-			pred := p.Block().Preds[i]
-			e = stripConv(e)
-			if _, nested := e.(*ssa.Phi); nested {
-				if ok, d := a.gateLeaves(e, fc, succ, noFormat); !ok {
-					return false, d
-				}
-				continue
-			}
-			if ok, d := checkF(e, a.FactsOnEdge(pred, p.Block())); !ok {
-				return false, d
-			}
-		}
-		return true, "each phi operand matches the edge it arrives on"
-	}
-	// not a phi: facts at the defining use site are those of the sink; use the value's own block
-	if in, ok := v.(ssa.Instruction); ok {
-		// use the facts at the sink instead (they dominate)
-		_ = in
-	}
-	// find the sink block: callers pass data of a sink; the value is used there. Use referrers.
-	for _, r := range nonDebugRefs(v) {
-		if ok, d := check(v, r.Block()); ok {
-			return true, d
-		}
-	}
-	return check(v, a.fn.Blocks[0])
-}
-
 // ---------------------------------------------------------------------------------------------
-
-func ruleFragment(c *Ctx) []Obligation {
-	o := c.newObs("P-FRAGMENT")
-	ft := c.fileType()
-	for _, tn := range []string{"Statement", "Group"} {
-		rwf := c.method(tn, "RenderWithFile")
-		rnd := c.method(tn, "Render")
-		gos := c.method(tn, "GoString")
-		irender := c.method(tn, c.renderName())
-		if rwf == nil || rnd == nil || gos == nil || irender == nil {
-			o.undecided("jen."+tn, "fragment renderers", token.NoPos, "anchor lost: RenderWithFile / Render / GoString / render not all found")
-			continue
-		}
-		// RenderWithFile: render(file-param, private buffer, ...)
-		a := c.FA(rwf)
-		var fileParam *ssa.Parameter
-		for _, p := range rwf.Params[1:] {
-			if pt, ok := p.Type().(*types.Pointer); ok && types.Identical(pt.Elem(), ft) {
-				fileParam = p
-			}
-		}
-		calls := a.callsTo(irender)
-		okc := len(calls) == 1 && fileParam != nil
-		if okc {
-			args := calls[0].Common().Args
-			_, bufLocal := stripConv(args[2]).(*ssa.Alloc)
-			okc = args[0] == rwf.Params[0] && args[1] == fileParam && bufLocal
-		}
-		o.req(okc, fname(rwf), "renders the receiver with the caller's File into a private buffer", rwf.Pos(), "exactly one call render(file, buf, …) with file = the method's File parameter (imports are shared with that File)")
-		// Render: RenderWithFile(w, fresh File)
-		a = c.FA(rnd)
-		calls = a.callsTo(rwf)
-		okc = len(calls) == 1
-		if okc {
-			args := calls[0].Common().Args
-			fresh := false
-			if call, ok := args[2].(*ssa.Call); ok {
-				if sc := call.Call.StaticCallee(); sc != nil && c.CG().Sum[sc] != nil {
-					rs := c.CG().Sum[sc].Returns
-					fresh = len(rs) == 1 && rs[Root{Kind: "fresh"}]
-				}
-			}
-			okc = args[0] == rnd.Params[0] && fresh
-			for _, r := range a.returns() {
-				if r.Results[0] != callValue(calls[0]) {
-					okc = false
-				}
-			}
-		}
-		o.req(okc, fname(rnd), "delegates to RenderWithFile with a fresh File and returns its result", rnd.Pos(), "Render must equal RenderWithFile with a new File")
-		// GoString: Render(fresh buffer); panic(err) on error; return buf.String()
-		a = c.FA(gos)
-		calls = a.callsTo(rnd)
-		okc = len(calls) == 1
-		detail := ""
-		if okc {
-			buf, isLocal := stripConv(calls[0].Common().Args[1]).(*ssa.Alloc)
-			e := callValue(calls[0])
-			h, why := a.handled(e)
-			detail = why
-			okc = isLocal && h && calls[0].Common().Args[0] == gos.Params[0]
-			for _, r := range a.returns() {
-				if bufferBytesOf(r.Results[0]) != buf {
-					okc = false
-					detail = "returns " + a.Desc(r.Results[0])
-				}
-			}
-		}
-		o.req(okc, fname(gos), "renders the receiver into a fresh buffer, panics on error, returns the buffer's text", gos.Pos(), "%s", detail)
-	}
-	// File.GoString
-	if gos, rnd := c.method("File", "GoString"), c.method("File", "Render"); gos != nil && rnd != nil {
-		a := c.FA(gos)
-		calls := a.callsTo(rnd)
-		okc := len(calls) == 1
-		detail := ""
-		if okc {
-			buf, isLocal := stripConv(calls[0].Common().Args[1]).(*ssa.Alloc)
-			h, why := a.handled(callValue(calls[0]))
-			detail = why
-			okc = isLocal && h && calls[0].Common().Args[0] == gos.Params[0]
-			for _, r := range a.returns() {
-				if bufferBytesOf(r.Results[0]) != buf {
-					okc = false
-				}
-			}
-		}
-		o.req(okc, fname(gos), "renders the receiver into a fresh buffer, panics on error, returns the buffer's text", gos.Pos(), "%s", detail)
-	} else {
-		o.undecided("jen.File", "GoString", token.NoPos, "anchor lost")
-	}
-	return o.list
-}
